@@ -408,13 +408,27 @@ type streamNBT struct {
 	M    map[string]int32 `nbt:"m"`
 }
 
+// plainLog: a log owned by one goroutine (no lock)
+type plainLog struct{ ev []map[string]any }
+
+func (l *plainLog) add(m map[string]any) { l.ev = append(l.ev, m) }
+
+type streamFold struct {
+	G       int32  `nbt:"g"`
+	K       int32  `nbt:"k"`
+	Payload []byte `nbt:"payloadbytesofthisstreamofthepooledcodecleg"`
+}
+
 func sha(b []byte) string { h := sha256.Sum256(b); return fmt.Sprintf("%x", h[:8]) }
 
 func runStreams(env *vk.Env) {
 	ng := env.Pick(16, 32)
 	rounds := env.Pick(60, 400)
-	log := &linLog{}
-	log.add(map[string]any{"k": "reset"})
+	// every goroutine keeps its own log (the specification speaks about each stream separately): a shared, locked log
+	// would order the goroutines' library calls for the race detector and hide unsynchronised accesses between them
+	outer := &linLog{}
+	outer.add(map[string]any{"k": "reset"})
+	logs := make([][]map[string]any, ng)
 	var wg sync.WaitGroup
 	for g := 0; g < ng; g++ {
 		g := g
@@ -422,6 +436,8 @@ func runStreams(env *vk.Env) {
 		go func() {
 			defer wg.Done()
 			defer guard("c20b")
+			log := &plainLog{}
+			defer func() { logs[g] = log.ev }()
 			rng := newRand(env.Seed, fmt.Sprint("stream", g))
 			thr := []int{-1, 0, 64, 256}[g%4]
 			var wire bytes.Buffer
@@ -479,6 +495,29 @@ func runStreams(env *vk.Env) {
 						}
 						got := fmt.Sprint(back.Elem().Field(0).Int(), back.Elem().Field(2).Int(), sha(back.Elem().Field(1).Bytes()))
 						log.add(map[string]any{"k": "recv", "g": g, "sha": sha([]byte(got)), "err": err != nil})
+					} else if k%8 == 5 {
+						// a document whose tag names differ from the struct's only in letter case (the decoder matches them
+						// through a fallback; every round spells the long name in a way nobody has used before, so whatever
+						// the decoder remembers per type about spellings is written while the other goroutines read it)
+						name := []byte("payloadbytesofthisstreamofthepooledcodecleg")
+						for i := range name {
+							if (uint(g*7919+k*104729)>>uint(i%24))&1 == 1 || i == g%len(name) {
+								name[i] -= 32
+							}
+						}
+						doc := map[string]any{"G": int32(g), "K": int32(k), string(name): payload}
+						var buf bytes.Buffer
+						err := nbt.NewEncoder(&buf).Encode(doc, "root")
+						var back streamFold
+						if err == nil {
+							_, err = nbt.NewDecoder(&buf).Decode(&back)
+						}
+						if err == nil && back.G == int32(g) && back.K == int32(k) { // the fallback exists: its result is this stream's
+							ref := fmt.Sprint(g, k, sha(payload))
+							log.add(map[string]any{"k": "send", "g": g, "sha": sha([]byte(ref))})
+							got := fmt.Sprint(back.G, back.K, sha(back.Payload))
+							log.add(map[string]any{"k": "recv", "g": g, "sha": sha([]byte(got)), "err": false})
+						}
 					} else {
 						v := streamNBT{G: int32(g), K: int32(k), Data: payload, Name: fmt.Sprint("s", g, "-", k), L: []int64{int64(g), int64(k)}, M: map[string]int32{"g": int32(g)}}
 						ref, _ := json.Marshal(v)
@@ -512,6 +551,10 @@ func runStreams(env *vk.Env) {
 		}()
 	}
 	wg.Wait()
+	log := outer
+	for _, l := range logs {
+		log.ev = append(log.ev, l...)
+	}
 	tr := &vk.Trace{}
 	n := 0
 	for _, e := range log.ev {
